@@ -152,6 +152,9 @@ const maxInlineDepth = 8
 func (f *Frame) callStatic(fn *ssa.Function, args, free []*Value, c *ssa.CallCommon, pos token.Pos) *Value {
 	e := f.e
 	name := e.qual(fn)
+	if f.top && !f.dry && f.fc != nil && len(f.fc.Asserts) > 0 {
+		f.siteAsserts(shortName(name), pos)
+	}
 	if r, ok := f.stdBuiltin(name, fn, args, c, pos); ok {
 		return r
 	}
@@ -354,7 +357,20 @@ func (f *Frame) applyContract(fc *FuncContract, name string, fn *ssa.Function, s
 	if i := strings.LastIndex(short, "."); i >= 0 {
 		short = short[i+1:]
 	}
-	if !f.dry {
+	if f.top && f.fc != nil && f.fc.AssumePre {
+		// the function's contract asks for callee preconditions to be assumed, not checked (listed as an assumption)
+		e.note(fmt.Sprintf("%s: preconditions of callee %s are assumed, not checked", e.qual(f.fn), name))
+		// unlabelled requires clauses (object invariants) are assumed; labelled ones are still checked
+		for _, cl := range fc.Requires {
+			if cl.Label == "" {
+				e.assume(f.pc, env.evalBool(cl.Expr))
+			} else if !f.dry {
+				for _, g := range env.evalSplit(cl.Expr) {
+					e.oblige("pre", short+"."+cl.Label, f.pc, g, fmt.Sprintf("precondition of %s: %s", name, cl.Src), pos, nil)
+				}
+			}
+		}
+	} else if !f.dry {
 		for k, cl := range fc.Requires {
 			lbl := cl.Label
 			if lbl == "" {
